@@ -104,7 +104,7 @@ func c16Collect(js []*m.Journal) *c16Names {
 					n.accounts.all[d.Account] = true
 					n.accounts.core[d.Account] = true
 					n.accounts.hi[d.Account]++
-					tagIn(d.Comment, false)
+					tagIn(d.Comment, true)
 				case "commodity", "commodity-sub":
 					s := d.Sym
 					if d.Fmt != nil {
@@ -115,11 +115,13 @@ func c16Collect(js []*m.Journal) *c16Names {
 					n.commodities.hi[s]++
 				case "D":
 					n.commodities.all[d.Fmt.Sym] = true
+					n.commodities.core[d.Fmt.Sym] = true
 					n.commodities.hi[d.Fmt.Sym]++
 				case "P":
 					n.commodities.all[d.Sym] = true
+					n.commodities.core[d.Sym] = true
 					n.commodities.hi[d.Sym]++
-					sym(d.Price, false, false)
+					sym(d.Price, true, false)
 				}
 			case e.Tx != nil:
 				t := e.Tx
@@ -145,7 +147,7 @@ func c16Collect(js []*m.Journal) *c16Names {
 						sym(&p.Cost.A, true, true)
 					}
 					if p.Assert != nil {
-						sym(&p.Assert.A, false, false)
+						sym(&p.Assert.A, true, false) // it exists; whether an assertion counts as a use is left open
 					}
 					tagIn(p.Comment, true)
 				}
@@ -251,6 +253,34 @@ func c16Check(c *C16Case) (ds []ev.Discrepancy, nontrivial bool) {
 		js = append(js, c.WS.Files[fi].Journal)
 	}
 	names := c16Collect(js)
+	// a document beside the root journal's tree: its own tree is certain to count, the workspace's
+	// names may or may not be offered to it
+	island := false
+	if c.Root {
+		island = true
+		for _, i := range c.WS.Reachable(0) {
+			if i == c.From {
+				island = false
+			}
+		}
+	}
+	if island {
+		var own []*m.Journal
+		for _, fi := range c.WS.Reachable(c.From) {
+			own = append(own, c.WS.Files[fi].Journal)
+		}
+		certain := c16Collect(own)
+		for _, pair := range [][2]*nameSet{{names.accounts, certain.accounts}, {names.payees, certain.payees}, {names.commodities, certain.commodities}, {names.tags, certain.tags}} {
+			pair[0].core, pair[0].lo = pair[1].core, pair[1].lo
+		}
+		for k, v := range names.tagValues {
+			if cv := certain.tagValues[k]; cv != nil {
+				v.core = cv.core
+			} else {
+				v.core = map[string]bool{}
+			}
+		}
+	}
 	var ns *nameSet
 	switch c.Sit.Kind {
 	case "account", "account-directive":
@@ -259,6 +289,7 @@ func c16Check(c *C16Case) (ds []ev.Discrepancy, nontrivial bool) {
 		ns = names.payees
 	case "commodity", "commodity-directive":
 		ns = names.commodities
+		ns.hi["ZZZ"] = 1 << 30 // the typing line's own commodity: used once or more, wherever it ranks
 	case "tagname":
 		ns = names.tags
 	case "tagvalue":
@@ -288,7 +319,7 @@ func c16Check(c *C16Case) (ds []ev.Discrepancy, nontrivial bool) {
 	}
 	// (sound)
 	for _, it := range items {
-		if it.Label == f || (c.Sit.Kind == "payee" && it.Label == "typing") || (c.Sit.Header != "" && it.Label == "typing") {
+		if it.Label == f || (c.Sit.Kind == "payee" && it.Label == "typing") || (c.Sit.Header != "" && it.Label == "typing") || (c.Sit.Kind == "commodity" && it.Label == "ZZZ") {
 			continue // what the user typed on this line exists in the document too
 		}
 		if !ns.all[it.Label] {
@@ -408,7 +439,7 @@ func genFragment(t *rapid.T, name string) string {
 	case 6:
 		// the beginning of one segment and the colon typed after it (any segment, the last included)
 		segs := strings.Split(name, ":")
-		seg := []rune(rapid.SampledFrom(segs).Draw(t, "fragseg"))
+		seg := []rune(strings.TrimSpace(rapid.SampledFrom(segs).Draw(t, "fragseg")))
 		if len(seg) == 0 {
 			return ""
 		}
@@ -440,14 +471,14 @@ func pick(t *rapid.T, set map[string]bool, fallback string, label string) string
 	return rapid.SampledFrom(ks).Draw(t, label)
 }
 
-var c16Opts = gen.WSOpts{MinFiles: 1, MaxFiles: 3,
+var c16Opts = gen.WSOpts{MinFiles: 1, MaxFiles: 3, Islands: true,
 	Journal: gen.JournalOpts{MinEntries: 2, MaxEntries: 6, Directives: true, TopComments: false, Tx: gen.TxOpts{MaxPostings: 4, MaxScale: 2, MaxDigits: 4}}}
 
 func genC16(t *rapid.T, p *gen.Profile) *C16Case {
 	pools := gen.GenPools(t, p)
 	ws := gen.GenWorkspace(t, p, pools, c16Opts)
 	c := &C16Case{WS: ws, Root: rapid.Bool().Draw(t, "root"), Fuzzy: rapid.Bool().Draw(t, "fuzzy"), Count: rapid.Bool().Draw(t, "counts")}
-	if c.Root {
+	if c.Root && rapid.IntRange(0, 3).Draw(t, "inroottree") != 0 {
 		c.From = rapid.SampledFrom(ws.Reachable(0)).Draw(t, "from")
 	} else {
 		c.From = rapid.IntRange(0, len(ws.Files)-1).Draw(t, "from")
@@ -461,7 +492,7 @@ func genC16(t *rapid.T, p *gen.Profile) *C16Case {
 		js = append(js, f.Journal)
 	}
 	names := c16Collect(js)
-	indent := rapid.SampledFrom([]string{"    ", "    ", "\t", "        "}).Draw(t, "indent")
+	indent := rapid.SampledFrom([]string{"    ", "    ", "\t", "        ", "  ", " ", "   "}).Draw(t, "indent")
 	header := "2024-06-01 typing"
 	kind := rapid.SampledFrom([]string{"account", "account", "account", "account-directive", "payee", "payee", "commodity", "commodity-directive", "tagname", "tagvalue"}).Draw(t, "kind")
 	s := C16Sit{Kind: kind}
@@ -494,6 +525,15 @@ func genC16(t *rapid.T, p *gen.Profile) *C16Case {
 	case "commodity":
 		s.Header = header
 		s.Before = indent + pick(t, names.accounts.all, "assets:cash", "acct") + rapid.SampledFrom([]string{"  ", "    "}).Draw(t, "sep") + rapid.SampledFrom([]string{"10", "-5.50", "1,000.00"}).Draw(t, "num") + " "
+		// the commodity of the amount, of a cost or of a balance assertion
+		switch rapid.IntRange(0, 5).Draw(t, "commoditywhere") {
+		case 0:
+			s.Before += "ZZZ " + rapid.SampledFrom([]string{"@", "@@"}).Draw(t, "costop") + " 2 "
+		case 1:
+			s.Before += "ZZZ " + rapid.SampledFrom([]string{"=", "=="}).Draw(t, "assertop") + " 5 "
+		case 2:
+			s.Before = strings.TrimSuffix(s.Before, " ") + rapid.SampledFrom([]string{" = 5 ", "  == 0 "}).Draw(t, "assertonly") // an amount without commodity, then an assertion
+		}
 		s.Fragment = genFragment(t, pick(t, names.commodities.all, "EUR", "name"))
 		if strings.ContainsAny(s.Fragment, " \"") {
 			s.Fragment = "" // a quoted commodity is not typed letter by letter
